@@ -304,8 +304,13 @@ func RunShard(p *Prop, tier string, seed uint64, shard, nshards int, from int64,
 		binary.LittleEndian.PutUint64(buf[:], uint64(idx))
 		jf.WriteAt(buf[:], 0)
 		atomic.StoreInt64(&c.caseStart, time.Now().UnixNano())
+		t0 := time.Now()
 		runCaseRecover(c, idx)
 		atomic.StoreInt64(&c.caseStart, 0)
+		if d := time.Since(t0); d > 5*time.Second {
+			// diagnostic only (never a verdict): which cases dominate the wall time of a run
+			fmt.Fprintf(os.Stderr, "VERIF-NOTE slow case=%d wall=%v\n", idx, d.Round(time.Millisecond))
+		}
 		rep.Evaluations++
 		if rep.Evaluations%512 == 0 && time.Since(lastFlush) > 2*time.Second {
 			lastFlush = time.Now()
